@@ -132,13 +132,13 @@ UNIT = Unit(
         Fn(A, "apply_tx_batch_impl", home="C02", implicit_props=("C09", "C02", "C03", "C06"), **ap_batch_impl(),
            rewrites=[("ANF", "try_for_each", 0, 2, {0: V_PRE, 1: V_POST}, "V"), ("ANF", "try_reduce", 0, 4, {1: D_PRE, 2: "let ghost fv = __cD2.val;", 3: D_POST}, "D"), ("INTOVEC", "new_stakes")],
            closures=[Closure(0, "tx: &Transaction", "(r: Result<(), StateError>)", requires=[C("vpre", "outputs_fit(*tx) && tx_env_r(this, relevant_coins@, *tx)")],
-                             ensures=[C("vpost", "(r is Ok ==> tx_checked_r(this, relevant_coins@, new_stakes@, *tx)) && (r is Err ==> !(r->Err_0 is WrongHeader))", "C02", "C04", "C13", "C01")]),
+                             ensures=[C("vpost", "(r is Ok ==> tx_checked_r(this, relevant_coins@, new_stakes@, *tx)) && (r is Err ==> !(r->Err_0 is WrongHeader))", "C02", "C04", "C13", "C01", "C03")]),
                      Closure(1, "tx: &&Transaction", "(r: bool)", ensures=[C("isdosc", "r == (tx.kind == TxKind::DoscMint)", "C18")]),
-                     Closure(2, "", "(r: u128)", ensures=[C("id1", "r == this.dosc_speed", "C18")]),
+                     Closure(2, "", "(r: u128)", ensures=[C("id1", "r == this.dosc_speed", "C18", "C03")]),
                      Closure(3, "a: u128, tx: &Transaction", "(r: Result<u128, StateError>)", requires=[C("dpre", "dosc_pre_r(this, relevant_coins@, *tx)")],
-                             ensures=[C("dpost", "match r { Ok(v) => dosc_step_r(this, relevant_coins@, *tx, a, v), Err(e) => !(e is WrongHeader) }", "C18")]),
-                     Closure(4, "", "(r: u128)", ensures=[C("id2", "r == this.dosc_speed", "C18")]),
-                     Closure(5, "a: u128, b: u128", "(r: Result<u128, StateError>)", ensures=[C("maxr", "r == Ok::<u128, StateError>(umax(a, b))", "C18")])],
+                             ensures=[C("dpost", "match r { Ok(v) => dosc_step_r(this, relevant_coins@, *tx, a, v), Err(e) => !(e is WrongHeader) }", "C18", "C03")]),
+                     Closure(4, "", "(r: u128)", ensures=[C("id2", "r == this.dosc_speed", "C18", "C03")]),
+                     Closure(5, "a: u128, b: u128", "(r: Result<u128, StateError>)", ensures=[C("maxr", "r == Ok::<u128, StateError>(umax(a, b))", "C18", "C03")])],
            injects=[Inject("entry", "let ghost tq = txx@; let ghost s0 = *this;"),
                     Inject(("after_let", "relevant_coins"), """let ghost rel = relevant_coins@;
                         proof { assert(rel_of(s0, tq, rel));
